@@ -1,0 +1,7 @@
+//go:build !verif
+
+package graph
+
+func verifBeforeFile(string) {}
+
+func verifOnMerge(*CodeGraph) {}
